@@ -66,7 +66,7 @@ def variant(i, v):
 
 
 def make_scenario(job, groups):
-    """groups: subset of {'ack', 'order', 'batch'} -- which monitor groups are active."""
+    """groups: subset of {'ack', 'order', 'batch', 'rr'} -- which monitor groups are active."""
     K = job["K"]
     acks = job["acks"]
     S = job["sends"]
@@ -104,6 +104,17 @@ def make_scenario(job, groups):
         bt = job.get("batch_t", 0) if job.get("batch") else 0
         maxatt = ctx.int("max_attempts", 1, job["max_attempts"]) if job.get("sym_attempts", True) else job["max_attempts"]
         interval = job.get("interval", 0.25)
+        selections = []  # (partition list, selected partition) in the order the producer asked its partitioner
+        if "rr" in groups:
+            from afkak.partitioner import RoundRobinPartitioner
+
+            class RecordingRoundRobin(RoundRobinPartitioner):
+                def partition(self, key, partitions):
+                    p_ = RoundRobinPartitioner.partition(self, key, partitions)
+                    selections.append((tuple(partitions), p_))
+                    return p_
+
+            kw["partitioner_class"] = RecordingRoundRobin
         producer = Producer(
             client, req_acks=acks, max_req_attempts=maxatt, retry_interval=interval, codec=job.get("codec", CODEC_NONE), **kw
         )
@@ -173,6 +184,8 @@ def make_scenario(job, groups):
                 for s in rec["payloads"][tp]["sends"]:
                     if "batch" in groups:
                         ctx.check(not (s.cancelled and s.in_requests == 0 and s.cancel_before_dispatch), "cancelled-before-dispatch-never-transmitted", "send %d" % s.idx)
+                    if getattr(s, "part", None) is None:
+                        s.part = tp[1]
                     if first_attempt:
                         ctx.check(s.in_requests == 0, "each-send-dispatched-in-one-batch", "send %d appears in a second batch (retry beyond the attempt limit or duplicate dispatch)" % s.idx)
                     s.in_requests += 1
@@ -362,7 +375,7 @@ def make_scenario(job, groups):
             ok = st["faults"] <= 0 or ctx.choose("metadata_outcome", 2) == 0
             for t in p.args["topics"]:
                 if ok:
-                    client.topic_partitions[t] = [0]
+                    client.topic_partitions[t] = list(range(nparts)) if (job.get("rr") and t == "t") else [0]
                     client.topic_errors[t] = 0
                 else:
                     client.topic_errors[t] = UnknownTopicOrPartitionError.errno
@@ -513,6 +526,14 @@ def make_scenario(job, groups):
             for s in sends:
                 if s.res and not isinstance(s.res[0], Failure):
                     ctx.check(s.acked_tp is not None, "success-only-if-leader-acknowledged-those-messages", "send %d" % s.idx)
+        if "rr" in groups:
+            # the producer keeps one round-robin partitioner per topic: with an unchanged ascending partition list the selections
+            # made for successive sends walk the cycle, whatever errors, retries and metadata reloads happened in between
+            seq = [p_ for (lst, p_) in selections if lst == tuple(range(nparts))]
+            ctx.check(len(seq) == len(selections), "round-robin-fair-across-sends", "partition lists offered: %r" % ([l for l, _ in selections],))
+            for j, p_ in enumerate(seq):
+                ctx.check(p_ == (seq[0] + j) % nparts, "round-robin-fair-across-sends",
+                          "successive selections on the unchanged list %r: %r" % (list(range(nparts)), seq))
         ctx.log("end", [(s.idx, "F" if isinstance(s.res[0], Failure) else "ok") if s.res else (s.idx, "-") for s in sends])
 
     return run
